@@ -28,7 +28,7 @@ theorem lowerCall_correct (P : Params) (env : Env) (c : RE) (hc : c.isCall = tru
   have := lowerArgs_correct P env args (by simpa [RE.WF] using hw)
   simp [lowerCallOf, evalCall, denote, nv, pos0, this]
 
-theorem lowerConc_correct (P : Params) (items : List RConcItem) (env : Env) (failed : Bool)
+theorem lowerConc_correct (P : Params) (items : List RConcItem) (env : Env) (failed : Option (Option Nat))
     (hw : items.all RConcItem.WF = true) :
     evalConc P (items.map lowerConcItem) env failed = denoteConc P items env failed := by
   induction items generalizing env failed with
@@ -112,8 +112,8 @@ mutual
     | .brk, _ => rfl
     | .cont, _ => rfl
     | .conc items, hw => by
-      simp only [lowerS, evalStmt, denoteS, lowerConc_correct P items env false (by simpa [RS.WF] using hw)]
-      cases denoteConc P items env false with
+      simp only [lowerS, evalStmt, denoteS, lowerConc_correct P items env none (by simpa [RS.WF] using hw)]
+      cases denoteConc P items env none with
       | mk r e => cases r <;> rfl
 
   theorem lowerSL_correct (P : Params) (env : Env) : (l : RSList) → l.WF = true →
